@@ -175,7 +175,7 @@ def incoq_writer_sample(rep, cases, go, wd, k=30):
 
 @prop("C05")
 def check_c05(rep, tier, seed, wd, replay):
-    n = 300 if tier == "quick" else 6000
+    n = 500 if tier == "quick" else 6000
     cases = cw.gen_cases(seed * 1000 + 5, n, "c05_", legal_p=0.95)
     go, model, distinct, hist, nd = writer_corr(rep, cases, wd, ["new", "calls", "writes", "indexes"], {"C05"})
     if tier == "thorough":
@@ -188,7 +188,7 @@ def check_c05(rep, tier, seed, wd, replay):
 
 @prop("C06")
 def check_c06(rep, tier, seed, wd, replay):
-    n = 300 if tier == "quick" else 6000
+    n = 500 if tier == "quick" else 6000
     cases = cw.gen_cases(seed * 1000 + 6, n, "c06_", legal_p=1.0, force={})
     # bias: CRCs on for most, attachments frequent
     go, model, distinct, hist, nd = writer_corr(rep, cases, wd, ["new", "calls", "writes"], {"C06", "C05"})
@@ -205,7 +205,7 @@ def check_c06(rep, tier, seed, wd, replay):
 
 @prop("C08")
 def check_c08(rep, tier, seed, wd, replay):
-    n = 300 if tier == "quick" else 6000
+    n = 450 if tier == "quick" else 6000
     g0 = gw.Gen(seed * 1000 + 8)
     cases = cw.corner_cases("c08_")
     for i in range(n):
@@ -707,7 +707,7 @@ def decode_written(f):
 
 @prop("C02")
 def check_c02(rep, tier, seed, wd, replay):
-    nfiles = 150 if tier == "quick" else 3000
+    nfiles = 300 if tier == "quick" else 3000
     files, crashed = cl.written_files(seed * 1000 + 2, nfiles, "c02f", wd, nmax=25, force={"skipmagic": False})
     files = cl.corner_written_files("c02c_", wd) + files
     cases = []
@@ -846,7 +846,7 @@ def max_overlap(ranges):
 def check_c03(rep, tier, seed, wd, replay):
     import random
     r = random.Random(seed * 1000 + 3)
-    nfiles = 160 if tier == "quick" else 4000
+    nfiles = 320 if tier == "quick" else 4000
     domains = [[0, 1, 2, 3], [5, 5, 5, 7], [0, 2**64 - 1, 2**64 - 2, 2**63], list(range(20)), [0, 10, 10**6, 2**40, 2**64 - 1]]
     files = []
     for i in range(nfiles):
@@ -935,7 +935,7 @@ def window_variants(s, e):
 def check_c04(rep, tier, seed, wd, replay):
     import random
     r = random.Random(seed * 1000 + 4)
-    nfiles = 40 if tier == "quick" else 800
+    nfiles = 110 if tier == "quick" else 800
     domains = [[0, 1, 2, 3], [0, 2**64 - 1, 2**64 - 2, 5], list(range(0, 40, 3)), [0, 10, 10**6, 2**40, 2**62]]
     files = []
     for i in range(nfiles):
@@ -1030,7 +1030,7 @@ def check_c04(rep, tier, seed, wd, replay):
 def check_c20(rep, tier, seed, wd, replay):
     import random
     r = random.Random(seed * 1000 + 20)
-    nfiles = 60 if tier == "quick" else 600
+    nfiles = 200 if tier == "quick" else 600
     files = []
     for i in range(nfiles):
         depth = r.randint(1, 8)
@@ -1276,7 +1276,7 @@ def expected_lex_content(f, lib):
 
 @prop("C01")
 def check_c01(rep, tier, seed, wd, replay):
-    nfiles = 200 if tier == "quick" else 5000
+    nfiles = 450 if tier == "quick" else 5000
     files, crashed = cl.written_files(seed * 1000 + 1, nfiles, "c01f", wd, nmax=25, small=False)
     files = cl.corner_written_files("c01c_", wd) + files
     lib = cm.lib_id()
@@ -1439,7 +1439,7 @@ def read_signature(kind_suffix, g):
 def check_c11(rep, tier, seed, wd, replay):
     import random
     r = random.Random(seed * 1000 + 11)
-    n = 80 if tier == "quick" else 2000
+    n = 300 if tier == "quick" else 2000
     lcases, rcases, pairs = [], [], []
     for i in range(n):
         L = arrangement(r, r.randint(1, 5), r.randint(1, 4), r.choice([[0, 1, 2, 3], [5, 9, 2**40, 2**64 - 1], list(range(12))]))
@@ -1527,7 +1527,7 @@ def relayout(r, L):
 def check_c12(rep, tier, seed, wd, replay):
     import random
     r = random.Random(seed * 1000 + 12)
-    n = 60 if tier == "quick" else 1500
+    n = 220 if tier == "quick" else 1500
     lcases, rcases, groups = [], [], []
     for i in range(n):
         L = arrangement(r, r.randint(1, 5), r.randint(1, 4), r.choice([[0, 1, 2, 3], [5, 9, 2**40, 2**64 - 1], list(range(12))]), empty_channel=False)
@@ -1671,7 +1671,7 @@ def expected_tree(types, name):
 def check_c19(rep, tier, seed, wd, replay):
     import random
     r = random.Random(seed * 1000 + 19)
-    n = 600 if tier == "quick" else 20000
+    n = 1500 if tier == "quick" else 20000
     cases = []
     for i in range(n):
         top, types, order = gen_type_graph(r, r.randint(0, 5))
@@ -2274,7 +2274,7 @@ def check_c16(rep, tier, seed, wd, replay):
     import json as js
     import random
     r = random.Random(seed * 1000 + 16)
-    n = 120 if tier == "quick" else 3000
+    n = 300 if tier == "quick" else 3000
     # ---------------- Go -> Python
     files, crashed = cl.written_files(seed * 1000 + 16, n, "c16g", wd, nmax=20, small=True, utf8_only=True,
                                       force={"comp": "", "custom": False, "skipmagic": False})
